@@ -32,6 +32,7 @@ fn baseline(b: u64) -> Plan {
     let mut s = ServerSpec::basic(Mode::F, &random_seed_hex(&mut rng));
     s.workers = [1i64, 4, 16][((b / 7) % 3) as usize];
     s.source = if rng.chance(1, 2) { ConfigSource::File } else { ConfigSource::Env };
+    file_layout(&mut rng, &mut s);
     if (b / 21) % 2 == 1 || load == "stats_dir_gone" {
         s.client_stats = Some("on".into());
         s.persist_dir = Some("/tmp".into());
